@@ -19,6 +19,16 @@ def impl_stats(text, sep):
     def f():
         st = CorpusStatistics(list(text), Separator(*sep))
         d = st.describe_all()
+        # the object can be asked again (reports per level, most common tokens, the whole description): a report
+        # is a function of the corpus, not of what was asked before
+        for level in st.separator.levels():
+            st.most_common_tokens(level, n=2)
+            st.most_common_tokens(level)
+            if st.describe_tokens(level) != d[level + 's']:
+                raise AssertionError('describe_tokens(%s) after describe_all() differs from the first report' % level)
+        d2 = st.describe_all()
+        if d2 != d:
+            raise AssertionError('a second describe_all() on the same object differs from the first')
         return d, {k: dict(v) for k, v in st.unigram.items()}
     return call_impl(f)
 
